@@ -200,6 +200,9 @@ inline void install_foreign_locales()
 {
     std::locale::global(std::locale(std::locale::classic(), new Latin1Ctype));
     setlocale(LC_ALL, "C.UTF-8");
+    // libstdc++ builds per-locale caches on first use (with new[]): do that now, not inside a case that counts blocks
+    { std::ostringstream o; o << 1 << ' ' << 1.5 << ' ' << true << ' ' << 12345678901234ULL; std::istringstream i("1 2.5"); int a; double b; i >> a >> b; }
+    { std::wostringstream o; o << 1 << L' ' << 1.5; }
 }
 
 // main loop: argv[1] = case file, argv[2] = index of first line to run (default 0)
